@@ -186,6 +186,7 @@ type SrvReq struct {
 	Conn   *Conn   // Connection that the request belongs to
 
 	status     reqStatus
+	cancelled  bool // flushed before a response was produced: no reply goes out
 	flushreq   *SrvReq
 	prev, next *SrvReq
 }
@@ -325,8 +326,14 @@ func (req *SrvReq) Process() {
 func (req *SrvReq) PostProcess() {
 	srv := req.Conn.Srv
 
-	/* call the post-handlers (if needed) */
-	switch req.Tc.Type {
+	/* call the post-handlers (if needed); a cancelled request has no
+	 * reply (req.Rc holds whatever was there) and must leave no state */
+	tctype := req.Tc.Type
+	if req.cancelled {
+		tctype = 0
+	}
+
+	switch tctype {
 	case Tauth:
 		srv.authPost(req)
 
@@ -386,6 +393,7 @@ func (req *SrvReq) Respond() {
 		return
 	}
 
+	req.cancelled = (status & reqFlush) != 0
 	if rop, ok := (req.Conn.Srv.ops).(SrvReqProcessOps); ok {
 		rop.SrvReqRespond(req)
 	} else {
